@@ -23,6 +23,8 @@ def run(ck, tier):
     _infl.run(ck, F, 'C01')
     from . import mustpass as _mp
     _mp.run(ck, F, 'C01')
+    from . import accum as _acc2
+    _acc2.run2(ck, F, 'C01')
     from . import c03x
     c03x.run(ck, F, rule="C01.view-rebase-guarded")
     from . import accum as _acc
